@@ -73,9 +73,8 @@ func tagged(tag byte, idx int, kind string, v2 bool, key *[32]byte, ts uint64) r
 		f.Checksum = uint16(idx)*31 + uint16(tag)
 	case "debug":
 		l := lay(debugMsgID)
-		v := &common.MessageDebug{TimeBootMs: uint32(idx), Ind: tag, Value: 1.5}
 		f.ID = debugMsgID
-		f.Payload = l.Encode(v, v2)
+		f.Payload = l.Encode(debugValue(tag, idx), v2)
 		f.Checksum = f.ChecksumFor(l.CRCExtra)
 	}
 	if key != nil {
@@ -84,7 +83,7 @@ func tagged(tag byte, idx int, kind string, v2 bool, key *[32]byte, ts uint64) r
 		f.LinkID = tag
 		f.Timestamp = ts
 		if kind == "debug" {
-			f.Payload = lay(debugMsgID).Encode(&common.MessageDebug{TimeBootMs: uint32(idx), Ind: tag, Value: 1.5}, true)
+			f.Payload = lay(debugMsgID).Encode(debugValue(tag, idx), true)
 			f.Checksum = f.ChecksumFor(lay(debugMsgID).CRCExtra)
 		}
 		if kind == "raw" {
@@ -103,9 +102,31 @@ func identify(fr frame.Frame) (tag byte, idx int, ok bool) {
 			return m.Payload[0], int(m.Payload[1]) | int(m.Payload[2])<<8, true
 		}
 	case *common.MessageDebug:
-		return m.Ind, int(m.TimeBootMs), true
+		return identifyDebug(m)
 	}
 	return 0, 0, false
+}
+
+// debugValue carries (tag, idx) in a DEBUG message. Every other index uses a form whose trailing fields
+// are zero, so that its v2 payload is truncated and the decoder has to zero-extend it.
+func debugValue(tag byte, idx int) *common.MessageDebug {
+	if idx%2 == 1 {
+		return &common.MessageDebug{TimeBootMs: uint32(idx&0xFFFF) | uint32(tag)<<16 | 1<<30}
+	}
+	return &common.MessageDebug{TimeBootMs: uint32(idx), Ind: tag, Value: 1.5}
+}
+
+func identifyDebug(m *common.MessageDebug) (byte, int, bool) {
+	if m.TimeBootMs&(1<<30) != 0 {
+		if m.Ind != 0 || m.Value != 0 {
+			return 0, 0, false // content mixed up with another frame
+		}
+		return byte(m.TimeBootMs >> 16), int(m.TimeBootMs & 0xFFFF), true
+	}
+	if m.Value != 1.5 {
+		return 0, 0, false
+	}
+	return m.Ind, int(m.TimeBootMs), true
 }
 
 // identifyFlat does the same for a frame parsed from an outgoing byte stream.
@@ -118,8 +139,7 @@ func identifyFlat(f ref.Frame) (tag byte, idx int, ok bool) {
 		if err != nil {
 			return 0, 0, false
 		}
-		m := v.(*common.MessageDebug)
-		return m.Ind, int(m.TimeBootMs), true
+		return identifyDebug(v.(*common.MessageDebug))
 	}
 	return 0, 0, false
 }
